@@ -23,12 +23,22 @@ def _replay_path(prop, fail):
     return path
 
 
-def check(prop, tier, seed):
+COST_ORDER = ['E7', 'E8', 'E5', 'E6', 'E3', 'E4', 'E9', 'E1', 'E2', 'EM']
+
+
+def check(prop, tier, seed, first_hit=False):
     t0 = time.time()
     spec = PROPS[prop]
     results = []
-    for eng in spec['engines'][tier]:
+    engines = spec['engines'][tier]
+    if first_hit:      # used when sweeping seeded mutations: cheapest engine first, stop at the first detection
+        engines = sorted(engines, key=COST_ORDER.index)
+    for eng in engines:
         results.append(run_engine(eng, tier, seed))
+        if first_hit:
+            hits = [f for f in results[-1]['fails'] if f['prop'] == prop]
+            if findings.classify(hits)[0]:
+                break
     fails = [f for r in results for f in r['fails'] if f['prop'] == prop]
     new, known, entries = findings.classify(fails)
     for kid, fs in sorted(known.items()):
@@ -109,6 +119,7 @@ def main(argv):
     c = sub.add_parser('check')
     c.add_argument('prop')
     c.add_argument('--tier', default=None)
+    c.add_argument('--first-hit', action='store_true')
     r = sub.add_parser('replay')
     r.add_argument('path')
     sub.add_parser('selftest')
@@ -119,7 +130,7 @@ def main(argv):
     try:
         if args.cmd == 'check':
             tier = args.tier or config.tier()
-            return check(args.prop, tier, config.seed())
+            return check(args.prop, tier, config.seed(), first_hit=args.first_hit)
         if args.cmd == 'replay':
             return replay(args.path)
         if args.cmd == 'selftest':
